@@ -12,6 +12,7 @@ import math
 
 import numpy as np
 
+from vf import bigcases
 from vf import core
 from vf.oracles import geo
 
@@ -266,3 +267,4 @@ def run(ctx):
     from vf import histories
 
     histories.run(ctx, __name__, 2 if ctx.tier == "quick" else 3)
+    bigcases.run(ctx, "C17")
